@@ -267,6 +267,8 @@ pub fn doc_text(tag: &str, who: &str) -> String {
         "crlf" => format!("# a {}\r\n# b", who),
         "tabcont" => format!("# a {}\n#\tb continued\t.", who),
         "u2028" => format!("# a {}\u{2028}# b", who),
+        // vertical tab, form feed and NEL are ordinary comment text (not white space of the grammar): they stay, also at the end
+        "ctlend" => format!("# a {}\u{0B}x\n# b\u{0C}\u{85}", who),
         _ => String::new(),
     }
 }
@@ -279,12 +281,16 @@ pub fn member_name(m: &Value, idx: usize, mode: &str) -> String {
 /// render an interface definition; `style` chooses legal trivia (blank lines, indentation, line ends, spaces)
 pub fn render_ast(ast: &Value, mode: &str, style: usize) -> String {
     let nl = ["\n", "\n", "\r\n", "\n"][style % 4];
-    let ind = ["", "  ", "\t", ""][(style / 4) % 4];
+    // (the grammar's white space includes U+180E and U+FEFF: indentation with them leaves the documentation untouched)
+    let ind = ["", "  ", "\t", "\u{180E}\u{FEFF}"][(style / 4) % 4];
     let gap = ["\n", "\n\n", "\n \n", "\n"][(style / 8) % 4].replace('\n', nl);
     let sp = [" ", "  ", " ", "\t"][(style / 2) % 4];
     let mut out = String::new();
     let name: Vec<&str> = ast["name"].as_array().unwrap().iter().map(|x| x.as_str().unwrap()).collect();
     let d = doc_text(ast["doc"].as_str().unwrap(), "the interface");
+    if style % 7 == 3 {
+        out.push('\u{FEFF}'); // a byte order mark at the start of the file is white space
+    }
     if style % 3 == 1 {
         out.push_str(nl);
     }
